@@ -72,3 +72,43 @@ func namesGen(idx int) (progCase, bool) {
 func init() {
 	semanticFamilies = append(semanticFamilies, progFamily{Name: "S14-names-that-differ-by-digits", Count: func(string) int { return namesCount() }, Gen: func(_ string, idx int) (progCase, bool) { return namesGen(idx) }})
 }
+
+// S16 fatal errors below functions whose names have every length from 1 to 24 (and one deeper
+// call chain per length): the error report lists the frames by name, whatever the names are.
+
+var fatalKinds = []string{"division-by-zero", "uncaught-throw", "index-out-of-range", "negative-shift"}
+
+func nameLenCount() int { return 24 * len(fatalKinds) * 2 }
+
+func nameLenGen(idx int) (progCase, bool) {
+	d := radix(idx, 2, len(fatalKinds), 24)
+	deep, kind, n := d[0] == 1, fatalKinds[d[1]], d[2]+1
+	name := ("f" + "abcdefghijklmnopqrstuvwxyz")[:1]
+	for len(name) < n {
+		name += string("_abcdefghij"[len(name)%11])
+	}
+	var fail hs.Expr
+	switch kind {
+	case "division-by-zero":
+		fail = hs.Bin("/", hs.I(10), hs.V("d"))
+	case "uncaught-throw":
+		fail = &hs.BlockExpr{B: hs.Blk(hs.I(1), hs.ES(hs.CallN("throw", hs.S("no"))))}
+	case "index-out-of-range":
+		fail = hs.Idx(hs.List(hs.I(1)), hs.Bin("+", hs.V("d"), hs.I(5)))
+	case "negative-shift":
+		fail = hs.Bin("<<", hs.I(1), hs.Bin("-", hs.V("d"), hs.I(1)))
+	}
+	prog := &hs.Program{}
+	prog.Funcs = append(prog.Funcs, hs.Fn(name, hs.TInt, hs.Blk(fail), hs.P("d", hs.TInt)))
+	call := hs.CallN(name, hs.I(0))
+	if deep {
+		prog.Funcs = append(prog.Funcs, hs.Fn("via_"+name, hs.TInt, hs.Blk(hs.Bin("+", hs.CallN(name, hs.V("d")), hs.I(1))), hs.P("d", hs.TInt)))
+		call = hs.CallN("via_"+name, hs.I(0))
+	}
+	prog.Funcs = append(prog.Funcs, hs.Fn("main", nil, hs.Blk(nil, hs.Println(hs.S("before")), hs.Println(call), hs.Println(hs.S("unreachable")))))
+	return mkCase(prog, "fatal:"+kind, fmt.Sprintf("name-length:%d", n), fmt.Sprintf("deep:%v", deep)), true
+}
+
+func init() {
+	semanticFamilies = append(semanticFamilies, progFamily{Name: "S16-fatal-errors-below-names-of-every-length", Count: func(string) int { return nameLenCount() }, Gen: func(_ string, idx int) (progCase, bool) { return nameLenGen(idx) }})
+}
